@@ -192,6 +192,19 @@ fn orchestrate(prop: &str, tier: Tier, seed: u64) -> i32 {
     let wall_cap = Duration::from_secs(tier.pick(15 * 60, 120 * 60));
     let outcomes = run_shards(prop, tier, seed, n, &run_dir, wall_cap, &[]);
     let mut m = Merged::new();
+    // shards that died or hung are re-run alone in trace mode, all at once (one process each)
+    let traces: std::collections::HashMap<usize, (Option<String>, String)> = std::thread::scope(|sc| {
+        let hs: Vec<_> = outcomes
+            .iter()
+            .filter(|o| o.died.is_some())
+            .map(|o| {
+                let idx = o.index;
+                let rd = &run_dir;
+                sc.spawn(move || (idx, trace_shard(prop, tier, seed, idx, n, rd, 0)))
+            })
+            .collect();
+        hs.into_iter().filter_map(|h| h.join().ok()).collect()
+    });
     for o in &outcomes {
         if let Some(j) = &o.json {
             m.add_json(j);
@@ -199,16 +212,16 @@ fn orchestrate(prop: &str, tier: Tier, seed: u64) -> i32 {
         }
         if let Some(d) = &o.died {
             // find the case that killed / hung the shard by re-running it in trace mode
-            let (last, how) = trace_shard(prop, tier, seed, o.index, n, &run_dir, 120);
+            let (last, how) = traces.get(&o.index).cloned().unwrap_or((None, "trace thread failed".into()));
             let label = last.clone().unwrap_or_else(|| "unknown".into());
-            if o.timed_out {
-                if how.contains("signal: 24") || how.contains("signal: 9") || how.contains("152") || how.contains("137") {
+            if o.timed_out || how == "hang" {
+                if how == "hang" {
                     m.violations.insert(
                         format!("timeout/{}", prop),
-                        Violation { sig: format!("timeout/{}", prop), witness: serde_json::json!({"case": label}), detail: format!("shard {} hung; re-run under CPU limit ended with {}", o.index, how), count: 1 },
+                        Violation { sig: format!("timeout/{}", prop), witness: serde_json::json!({"case": label}), detail: format!("shard {} made no progress ({}); re-run alone, this case burned {} CPU seconds without finishing", o.index, d, STALL_CPU_S), count: 1 },
                     );
                 } else {
-                    *m.inconclusive.entry(format!("shard {} exceeded the wall-clock watchdog but finished when re-run alone ({}): machine load", o.index, how)).or_insert(0) += 1;
+                    *m.inconclusive.entry(format!("shard {} stopped making progress ({}) but finished when re-run alone ({}): machine load, not a verdict", o.index, d, how)).or_insert(0) += 1;
                 }
             } else if how.contains("signal: 9") || how.contains("signal: 15") {
                 // SIGKILL / SIGTERM come from outside the process (OOM killer, operator, watchdog):
